@@ -29,7 +29,8 @@ META["text"] = (
     "qfrc_bias = an independent world-frame Newton-Euler force at zero acceleration (sum_b Jp' m (Jdot_p v - g) + Jr' (I Jdot_r v + w x I w), Jdot v by central differences of mj_jac along qvel, plus armature_t J_t' (Jdot_t v) per tendon with Jdot_t v by central differences of ten_J, 2e-6; bodies with 2-3 joints in mixed hinge/slide order and spatial tendons with pulleys (divisor != 1) and armature are in the fixed corpus), "
     "mj_inverse: qfrc_inverse + qfrc_passive + qfrc_constraint = (mj_mulM a) + that independent bias, "
     "mj_rne(a) - mj_rne(0) + armature.a (+ tendon armature term) = M a (mj_rne itself carries no armature term: the identity of the property statement holds with the armature added, as mj_inverse does). "
-    "mj_crb, mj_rne, mj_tendonArmature, the upper = true variants of the structure builder (tied exactly, no theorem), index/sleep filtering and n > 1 right-hand sides are not modelled. "
+    "mj_crb, mj_rne, mj_tendonArmature, the upper = true variants of the structure builder (tied exactly, no theorem), sleep filtering is not modelled. mj_solveLD / mj_solveM with n > 1 right-hand sides are tied to the model vector by vector (a batch is n independent solves, to which C06_solve_factor applies) and checked by the oracle (M z_k = y_k for every k), "
+    "mj_factorI / mj_solveLD with a dof index (unions of whole trees) are checked against the full call (listed dofs identical, other entries untouched), mj_solveM2 (|x|^2 = y'M^-1 y) and mj_mulM2 (|M^(1/2)v|^2 = v'Mv) by the oracle. "
     "Tie: mj_makeDofDofSparse (exported) is called on raw random forests for all four reduced x upper variants and compared exactly with the model; m->M_rownnz/M_rowadr/M_colind of compiled trees are compared exactly with the model applied to "
     "m->dof_parentid/dof_simplenum; mj_factorI, mj_solveLD, mju_mulSymVecSparse, mju_sym2dense are compared at binary64 (2^-30) with the models on raw forests with random L'DL values and on the M of compiled trees.")
 META["note"] = ("Trusted: Coq kernel + standard-library real-number axioms listed in trusted_base; hand-written models; correspondence harness (gcc, driver c06_inertia.c, mjgen.h); "
@@ -168,9 +169,18 @@ def run(ctx):
             struct, L, D, M = ldl_values(rng, nv, par, simple)
             vals = [M[i][c] for i in range(nv) for c in struct[i]]
             x = [rng.uniform(-2, 2) for _ in range(nv)]
-            reqs.append(("factor", {"nv": nv, "par": par, "simple": simple, "vals": vals, "x": x, "L": L, "D": D, "M": M, "struct": struct},
-                         "factor %d %s %s %d %s %s" % (nv, " ".join(map(str, par)), " ".join(map(str, simple)), len(vals),
-                                                       " ".join(hx(v) for v in vals), " ".join(hx(v) for v in x))))
+            nvec = rng.choice([2, 3, 6])
+            X = [rng.choice([0.0, rng.uniform(-2, 2), rng.uniform(-2, 2)]) for _ in range(nvec * nv)]
+            # dof skipping: a union of whole trees (roots chosen at random), ascending dof order
+            root = []
+            for i in range(nv):
+                root.append(i if par[i] < 0 else root[par[i]])
+            keep = set(r0 for r0 in set(root) if rng.random() < 0.6)
+            idx = [i for i in range(nv) if root[i] in keep]
+            reqs.append(("factor", {"nv": nv, "par": par, "simple": simple, "vals": vals, "x": x, "L": L, "D": D, "M": M, "struct": struct, "nvec": nvec, "X": X, "idx": idx},
+                         "factor %d %s %s %d %s %s %d %s %d %s" % (nv, " ".join(map(str, par)), " ".join(map(str, simple)), len(vals),
+                                                                   " ".join(hx(v) for v in vals), " ".join(hx(v) for v in x), nvec, " ".join(hx(v) for v in X),
+                                                                   len(idx), " ".join(map(str, idx)))))
     # C. compiled random trees
     FEAT = {"FREE": 1, "BALL": 2, "SLIDE": 4, "TENDON": 32, "LIMIT": 1 << 10, "SPRING": 1 << 12, "MULTITREE": 1 << 15}
     # fixed corpus (both tiers): bodies with 2-3 joints in mixed hinge/slide order, with and without slide joints in the base tree
@@ -235,7 +245,7 @@ def run(ctx):
             coq_src.append((kind, info, line))
             stats["sparse"] += 1
         elif kind == "factor":
-            o = parse(ol, "iiiddddd")
+            o = parse(ol, "iiiddddddddd")
             if o is None:
                 viol(info, line, "factor request runs", "values", ol[:200], "factorI")
                 continue
@@ -253,8 +263,28 @@ def run(ctx):
                 viol(info, line, "mj_factorI returns the unique unit-lower L and D with L'DL = M", wantLD, o[5], "factorI")
             if not close(matvec(M, o[7]), x, 1e-8):
                 viol(info, line, "mj_solveLD solves M y = x", x, matvec(M, o[7]), "solveLD")
+            # batch of right-hand sides: every vector is solved as if it were alone
+            nvec, X, idx = info["nvec"], info["X"], info["idx"]
+            for k in range(nvec):
+                yk, xk = o[8][k * nv:(k + 1) * nv], X[k * nv:(k + 1) * nv]
+                if len(yk) != nv or not close(matvec(M, yk), xk, 1e-8):
+                    viol(info, line, "mj_solveLD with n = %d right-hand sides: M y_k = x_k for vector k = %d" % (nvec, k), xk, matvec(M, yk) if len(yk) == nv else yk, "solveLD_batch")
+                    break
+            # dof skipping (index = whole trees): listed dofs are factored / solved exactly as in the full call, the others are untouched
+            st_adr = [sum(len(r) for r in struct[:i]) for i in range(nv)]
+            inidx = set(idx)
+            wantLD3 = [(o[5][st_adr[i] + k] if i in inidx else info["vals"][st_adr[i] + k]) for i in range(nv) for k in range(len(struct[i]))]
+            wantd3 = [(o[6][i] if i in inidx else -7.0) for i in range(nv)]
+            wantx3 = [(o[7][i] if i in inidx else x[i]) for i in range(nv)]
+            if not close(o[9], wantLD3, 1e-12) or not close(o[10], wantd3, 1e-12):
+                viol(info, line, "mj_factorI with a dof index (whole trees): listed rows as in the full factorisation, other rows untouched", wantLD3, o[9], "factorI_index")
+            if not close(o[11], wantx3, 1e-12):
+                viol(info, line, "mj_solveLD with a dof index (whole trees): listed dofs as in the full solve, other entries untouched", wantx3, o[11], "solveLD_index")
             coq_cases.append(cq(1, [[nv], info["par"], info["simple"]], [info["vals"], x, x], [], [o[3], o[4], o[5], o[6], o[7]]))
             coq_src.append((kind, info, line))
+            for k in range(nvec):
+                coq_cases.append(cq(2, [[nv], info["par"], info["simple"]], [info["vals"], X[k * nv:(k + 1) * nv]], [], [o[8][k * nv:(k + 1) * nv]]))
+                coq_src.append((kind, info, line))
             stats["factor"] += 1
         elif kind == "tendemo":
             o = parse(ol, "diiid")
@@ -269,7 +299,7 @@ def run(ctx):
                               expected={"law": "two world-attached hinges coupled by a fixed tendon with armature a: M01 = a*c0*c1", "M": want}, observed=o[0],
                               signature={"site": "mj_tendonArmature", "class": "cross-branch-terms-dropped"})
         else:
-            o = parse(ol, "iiiiii" + "d" * 15 + "i")
+            o = parse(ol, "iiiiii" + "d" * 19 + "i")
             if o is None:
                 if "compile" in ol:
                     continue          # generator produced a model the compiler rejects: not a case
@@ -279,7 +309,7 @@ def run(ctx):
             if nv == 0:
                 continue
             par, simple, rnnz, radr, cind = o[1], o[2], o[3], o[4], o[5]
-            Mv, qLD, dinv, full, v, Mvv, u, bias, rne0, rnea, arm, Mref, Tm, biasref, invsum = o[6:21]
+            Mv, qLD, dinv, full, v, Mvv, u, Yb, Zb, Z2b, m2v, bias, rne0, rnea, arm, Mref, Tm, biasref, invsum = o[6:25]
             stats["model"] += 1
             stats["model_nv_max"] = max(stats["model_nv_max"], nv)
             stats["models_with_simple_dofs"] += 1 if any(simple) else 0
@@ -299,8 +329,10 @@ def run(ctx):
             Tcross = [a - b for a, b in zip(Tm, Tin)]
             Mtot = [a + b for a, b in zip(Mref, Tm)]
             Mtrunc = [a + b for a, b in zip(Mref, Tin)]
+            dropped = False
             if not close(full, Mtot, OT):
                 if any(abs(t) > 1e-12 for t in Tcross) and close(full, Mtrunc, OT):
+                    dropped = True
                     nviol[0] += 1
                     ctx.violation("impl_violation", dict(info, line=line), theorem="oracle: M = sum_b J_b' I_b J_b + armature + sum_t armature_t J_t' J_t",
                                   expected={"law": "M includes the full tendon-armature term armature*J'J", "cross_terms_expected": [t for t in Tcross if t][:8]},
@@ -320,12 +352,34 @@ def run(ctx):
                     else:
                         Lm[i][c] = qLD[radr[i] + k]
             rec = [sum(Lm[k][i] * Dm[k] * Lm[k][j] for k in range(nv)) for i in range(nv) for j in range(nv)]
-            if not close(rec, full, OT) or any(d <= 0 for d in Dm) or not close(dinv, [1 / d for d in Dm], 1e-12):
-                viol(info, line, "L'DL reconstructs M with positive pivots (M positive definite), qLDiagInv = 1/D", full, rec, "factorM")
+            if not close(rec, full, OT) or any(d == 0 for d in Dm) or not close(dinv, [1 / d if d else 0.0 for d in Dm], 1e-12):
+                viol(info, line, "L'DL reconstructs M, qLDiagInv = 1/D", full, rec, "factorM")
+            elif any(d <= 0 for d in Dm):
+                if dropped:
+                    # consequence of the known finding: with the cross terms of armature*J'J dropped, the stored M can be INDEFINITE
+                    ctx.violation("impl_violation", dict(info, line=line), theorem="oracle: M positive definite",
+                                  expected={"law": "all pivots of L'DL positive (M positive definite)"}, observed={"pivots": [d for d in Dm if d <= 0]},
+                                  signature={"site": "mj_tendonArmature", "class": "cross-branch-terms-dropped"},
+                                  note="M = body part + truncated tendon-armature part; the truncation destroys positive semidefiniteness of armature*J'J")
+                else:
+                    viol(info, line, "M positive definite (positive pivots)", "> 0", [d for d in Dm if d <= 0], "factorM")
             if not close(Mvv, matvec(F_, v), OT):
                 viol(info, line, "mj_fullM v = mj_mulM v", matvec(F_, v), Mvv, "mulM")
             if not close(u, v, 1e-8):
                 viol(info, line, "mj_solveM(mj_mulM v) = v", v, u, "solveM")
+            # batch of 3 right-hand sides at once; the half solve mj_solveM2 and mj_mulM2 (M^(1/2))
+            for k in range(3):
+                yk, zk, z2k = Yb[k * nv:(k + 1) * nv], Zb[k * nv:(k + 1) * nv], Z2b[k * nv:(k + 1) * nv]
+                if not close(matvec(F_, zk), yk, 1e-8, 1 + max(abs(t) for t in yk)):
+                    viol(info, line, "mj_solveM with 3 right-hand sides: M z_k = y_k for vector k = %d" % k, yk, matvec(F_, zk), "solveM_batch")
+                    break
+                q1, q2 = sum(a * a for a in z2k), sum(a * b for a, b in zip(yk, zk))
+                if abs(q1 - q2) > 1e-8 * (1 + abs(q2)):
+                    viol(info, line, "mj_solveM2: |x_k|^2 = y_k' M^-1 y_k for vector k = %d" % k, q2, q1, "solveM2")
+                    break
+            qa, qb = sum(a * a for a in m2v), sum(a * b for a, b in zip(v, Mvv))
+            if abs(qa - qb) > 1e-9 * (1 + abs(qb)):
+                viol(info, line, "mj_mulM2: |M^(1/2) v|^2 = v' M v", qb, qa, "mulM2")
             has_ten_arm = any(t != 0 for t in Tm)
             if not has_ten_arm and not close(bias, rne0, 1e-12):      # with tendon armature qfrc_bias also carries a J' (Jdot v)
                 viol(info, line, "qfrc_bias = mj_rne(0)", rne0, bias, "rne")
@@ -347,6 +401,9 @@ def run(ctx):
             coq_src.append((kind, info, line))
             coq_cases.append(cq(1, [[nv], par, simple], [Mv, v, Mvv], [], [Mvv, full, qLD, dinv, u]))
             coq_src.append((kind, info, line))
+            for k in range(3):
+                coq_cases.append(cq(2, [[nv], par, simple], [Mv, Yb[k * nv:(k + 1) * nv]], [], [Zb[k * nv:(k + 1) * nv]]))
+                coq_src.append((kind, info, line))
     pre = r"""
 Definition zn (l : list Z) : list nat := map Z.to_nat l.
 Definition gi (l : list (list Z)) (i j : nat) : Z := nth j (nth i l []) 0%Z.
@@ -374,6 +431,13 @@ Definition chk (c : Z * (list (list Z) * list (list float)) * (list (list Z) * l
     fclose_list 0%float (concat (sym2dense nv Sm)) (lf ofl 1) &&
     fclose_list tol (concat ld) (lf ofl 2) && fclose_list tol dinv (lf ofl 3) &&
     fclose_list tol (solveLD nv cols ld dinv (lf fa 2)) (lf ofl 4)
+  else if (op =? 2)%Z then
+    (* one vector of a batch solved by mj_solveLD / mj_solveM with n > 1: the model solves every vector on its own *)
+    let nv := gn ia 0 0 in
+    let cols := dofdof_rows nv (li ia 1) (li ia 2) true false in
+    let rows := unconcat (map (@length nat) cols) (lf fa 0) in
+    let '(ld, dinv) := factorI nv cols rows in
+    fclose_list tol (solveLD nv cols ld dinv (lf fa 1)) (lf ofl 0)
   else false end.
 """
     imports = ("From Coq Require Import ZArith List Bool PrimFloat.\nFrom MJV Require Import Lib.Num Lib.NumF Model.Sparse Model.SparseM.\n"
